@@ -115,6 +115,10 @@ func (v *Verifier) VerifyFunc(fc *FuncContract) {
 	rep := &FuncReport{Key: fc.Key}
 	v.Reports = append(v.Reports, rep)
 	fn := v.Prog.Funcs[fc.Key]
+	if fn == nil {
+		// a method whose receiver changed between T and *T is still that method
+		fn = v.Prog.Funcs[altRecvKey(fc.Key)]
+	}
 	if fc.Options["trusted"] != "" && fn != nil {
 		rep.Notes = append(rep.Notes, "TRUSTED (body not verified): "+fc.Options["trusted"])
 		v.UsedEnv["contract of "+fc.Key+" ASSUMED, body not verified: "+fc.Options["trusted"]] = true
@@ -412,4 +416,17 @@ func loopPos(b *ssa.BasicBlock) int {
 		}
 	}
 	return best
+}
+
+// altRecvKey maps pkg:(T).M to pkg:(*T).M and back.
+func altRecvKey(key string) string {
+	i := strings.Index(key, ":(")
+	if i < 0 {
+		return key
+	}
+	rest := key[i+2:]
+	if strings.HasPrefix(rest, "*") {
+		return key[:i+2] + rest[1:]
+	}
+	return key[:i+2] + "*" + rest
 }
